@@ -187,7 +187,10 @@ void Response::toXml(QXmlStreamWriter *writer) const
 std::optional<Success> Success::fromDom(const QDomElement &el)
 {
     if (el.tagName() == u"success" && el.namespaceURI() == ns_sasl) {
-        return Success();
+        // "=" indicates empty additional data
+        if (auto data = parseBase64(el.text() == u"=" ? QString() : el.text())) {
+            return Success { *data };
+        }
     }
     return {};
 }
@@ -196,6 +199,9 @@ void Success::toXml(QXmlStreamWriter *writer) const
 {
     writer->writeStartElement(QSL65("success"));
     writer->writeDefaultNamespace(toString65(ns_sasl));
+    if (!additionalData.isEmpty()) {
+        writer->writeCharacters(serializeBase64(additionalData));
+    }
     writer->writeEndElement();
 }
 
@@ -1259,6 +1265,7 @@ std::optional<QByteArray> QXmppSaslClientScram::respond(const QByteArray &challe
         const QMap<char, QByteArray> input = parseGS2(challenge);
         m_step++;
         if (QByteArray::fromBase64(input.value('v')) == m_serverSignature) {
+            m_serverVerified = true;
             return QByteArray();
         }
         return {};
